@@ -733,7 +733,7 @@ def random_bound(rng, world, kind_hint):
     return dict(set=False, x=0), -1, 'unset'
 
 
-SLABS_SHARE = dict(quick=0.12, thorough=0.05)     # share of the random events that are slab lists
+SLABS_SHARE = dict(quick=0.12, thorough=0.03)     # share of the random events that are slab lists
 SLABS_MAX_N = 40
 
 
@@ -1072,7 +1072,7 @@ def run(ctx):
         vecs = keep + rest[:1500]
     nev = run_vectors(ctx, vecs, X, rng)
     ctx.note('binding A: %d exported vectors, %d real runs judged' % (len(vecs), nev))
-    pre = run_slab_vectors(ctx, X, 100 if q else 500)
+    pre = run_slab_vectors(ctx, X, 100 if q else 300)
     run_random(ctx, X, rng, 24 if q else 400, 30 if q else 60, 40 if q else 100, pre=pre)
     ctx.note('mix events: %(mix_events)d; tangent layers opaque in the line cores AND transparent in the windows with haze present: '
              '%(mixed_layers)d; layers under the tau>10 licence at every wavenumber: %(licensed_layers)d' % STATS)
